@@ -161,3 +161,140 @@ func c13ColumnGrowth(x *X, c *Chooser) {
 	x.State(fmt.Sprint("growth", w0, k, grow, how))
 	x.Nontrivial(fmt.Sprint(c.path))
 }
+
+// family "row-callback-appends-cell": an add-time ROW callback (the table's, or the row's own) adds a cell to the
+// very row that is being attached; the table- and column-level add-time CELL callbacks that follow must still be
+// handed the LIVE cells of that row (the append may have moved them) exactly once each.
+type c13AppendCB struct {
+	done map[*tabular.Row]bool
+}
+
+func (a *c13AppendCB) UpdateProperties(po tabular.PropertyOwner) error {
+	if r, ok := po.(*tabular.Row); ok && !a.done[r] && !r.IsSeparator() {
+		a.done[r] = true
+		r.Add(tabular.NewCell("appended-by-callback"))
+	}
+	return nil
+}
+
+type c13LiveRec struct {
+	name  string
+	hits  map[*tabular.Cell]int
+	texts []string
+}
+
+func (l *c13LiveRec) UpdateProperties(po tabular.PropertyOwner) error {
+	if cp, ok := po.(*tabular.Cell); ok {
+		l.hits[cp]++
+		l.texts = append(l.texts, cp.String())
+		cp.SetProperty("seen-by-"+l.name, true)
+	}
+	return nil
+}
+
+func c13RowCallbackAppends(x *X, c *Chooser) {
+	n0 := 1 + c.Choose(3)
+	ctor := c.Choose(4)  // AddRowItems | NewRow | NewRowWithCapacity(n0) | NewRowSizedFor
+	owner := c.Choose(2) // appender registered on the table (ROW) | on the row itself (only for detached constructors)
+	recOn := c.Choose(2) // recording CELL callback on the table | on column 1
+	hdr := c.Bool()
+	if owner == 1 && ctor == 0 {
+		return
+	}
+	if recOn == 1 && !hdr {
+		return // column 1 does not exist before the first row or header
+	}
+	t := tabular.New()
+	if hdr {
+		t.AddHeaders("h1", "h2")
+	}
+	app := &c13AppendCB{done: map[*tabular.Row]bool{}}
+	rec := &c13LiveRec{name: "rec", hits: map[*tabular.Cell]int{}}
+	tags := []string{"row_callback_appends_cell", "add_time_callback_modifies_the_row_being_added"}
+	var recOwner tabular.PropertyOwner = t
+	if recOn == 1 {
+		recOwner = t.Column(1)
+	}
+	items := make([]interface{}, n0)
+	for i := range items {
+		items[i] = fmt.Sprintf("c%d", i)
+	}
+	var row *tabular.Row
+	switch ctor {
+	case 1:
+		row = tabular.NewRow()
+	case 2:
+		row = tabular.NewRowWithCapacity(n0)
+	case 3:
+		row = t.NewRowSizedFor()
+	}
+	if row != nil {
+		for _, it := range items {
+			row.Add(tabular.NewCell(it))
+		}
+	}
+	var err error
+	if owner == 0 {
+		err = registerCB(t, t, 0, 2, app)
+	} else {
+		err = registerCB(t, row, 0, 0, app)
+	}
+	if err != nil {
+		x.Fail("C13.refused", tags, "registering the appending callback was refused: %v", err)
+		return
+	}
+	if err := registerCB(t, recOwner, 0, 1, rec); err != nil {
+		x.Fail("C13.refused", tags, "registering the recording CELL callback was refused: %v", err)
+		return
+	}
+	c.Logf("row of %d cells via %s; appending callback on %s; recording ADD/CELL callback on %s; header: %v", n0, []string{"AddRowItems", "NewRow", "NewRowWithCapacity(exact)", "NewRowSizedFor"}[ctor], []string{"table/ADD/ROW", "row/ADD/ITSELF"}[owner], []string{"table", "column 1"}[recOn], hdr)
+	if row == nil {
+		t.AddRowItems(items...)
+	} else {
+		t.AddRow(row)
+	}
+	x.Transition(1)
+	live := t.AllRows()[0].Cells()
+	x.Clause("C13.live")
+	for cp, n := range rec.hits {
+		found := false
+		for i := range live {
+			if cp == &live[i] {
+				found = true
+			}
+		}
+		if !found {
+			x.Fail("C13.live", tags, "the add-time CELL callback was handed a cell (%q, %d time(s)) that is not one of the row's cells as reachable through the table afterwards (texts seen %v)", cp.String(), n, rec.texts)
+			return
+		}
+	}
+	x.Clause("C13.once")
+	last := n0
+	if recOn == 1 {
+		last = 1
+	}
+	for i := 0; i < last; i++ {
+		cp, err := t.CellAt(tabular.CellLocation{Row: 1, Column: i + 1})
+		if err != nil {
+			x.Fail("C13.once", tags, "CellAt(1,%d): %v", i+1, err)
+			return
+		}
+		if rec.hits[cp] != 1 {
+			x.Fail("C13.once", tags, "original cell %d (%q) of the row was handed to the add-time CELL callback %d times, want once (texts seen %v)", i+1, cp.String(), rec.hits[cp], rec.texts)
+			return
+		}
+		x.Clause("C13.live")
+		if cp.GetProperty("seen-by-rec") != true {
+			x.Fail("C13.live", tags, "the property the callback set on original cell %d is not visible through the table", i+1)
+			return
+		}
+	}
+	for cp, n := range rec.hits {
+		if n > 1 {
+			x.Fail("C13.once", tags, "cell %q was handed to the add-time CELL callback %d times", cp.String(), n)
+			return
+		}
+	}
+	x.State(fmt.Sprint("append", n0, ctor, owner, recOn, hdr))
+	x.Nontrivial(fmt.Sprint(c.path))
+}
